@@ -25,5 +25,5 @@ Lemma pins_C06_ok :
   ; "b00e7f6031dee6805d3541cdf9eb972fec6978606d76a06db3ab1f5c798a4113"   (* _util.py: make_context *)
   ; "805f2e611fead21a091035cfb6ca01cbd1cdebf224d620afa10501c7290b6854"   (* _util.py: check_collapsed_pairs *)
   ; "1507eaaa71aeca1f7ff142c2b3f322f1c641815d0339a2012c828002c73e3281"   (* _util.py: validate_vector *)
-  ; "230c2d14ca2cf735a6ea55c2b69be68a280ffd7bfd13818ae99c8217548e33e2"   (* _util.py: _check_n_components *) ].
+  ; "ce1982cfdc6c4e8c3ac8f598f037afc55d2dcde78b3473ce22d3494bd1d3b84b"   (* _util.py: _check_n_components *) ].
 Proof. reflexivity. Qed.
